@@ -568,6 +568,103 @@ fn witness(rep: &mut Report) {
     std::env::set_current_dir("/verif").unwrap();
 }
 
+/// The same property through the command line (main()'s wiring of --source-dir, --prefix-dir and
+/// --path-mapping around add_results and rewrite_paths): every input names files that exist under
+/// the source directory (the `canonical` guard of C12_unique_partial), in several spellings.
+fn cli_stream(rep: &mut Report, rng: &mut Rng) {
+    use corrlib::pipe::{decode_lcov_report, run_grcov, RunCfg};
+    let n = rep.budget(12, 10);
+    for c in 0..n {
+        let root = rep.workdir.join(format!("cli{}", c));
+        let _ = std::fs::remove_dir_all(&root);
+        let src = root.join("proj");
+        let files = ["lib/util.c", "main.c", "lib/deep/x.c"];
+        for f in files {
+            std::fs::create_dir_all(src.join(f).parent().unwrap()).unwrap();
+            std::fs::write(src.join(f), "int a;\nint b;\nint c;\nint d;\n").unwrap();
+        }
+        let src_abs = std::fs::canonicalize(&src).unwrap();
+        let k = rng.range(2, 4) as usize;
+        let mut want: BTreeMap<String, BTreeMap<u32, u64>> = BTreeMap::new();
+        let mut args = vec![];
+        let mut spellings = vec![];
+        for i in 0..k {
+            let mut text = String::from("TN:\n");
+            for f in files {
+                if rng.chance(1, 3) {
+                    continue;
+                }
+                let sp = match rng.below(6) {
+                    0 => f.to_string(),
+                    1 => format!("./{}", f),
+                    2 => f.replacen('/', "//", 1),
+                    3 => format!("{}/{}", src_abs.display(), f),
+                    4 => format!("lib/../{}", f),
+                    _ => f.replacen('/', "/./", 1),
+                };
+                text.push_str(&format!("SF:{}\n", sp));
+                for l in 1..=3u32 {
+                    if rng.chance(2, 3) {
+                        let h = rng.below(5);
+                        text.push_str(&format!("DA:{},{}\n", l, h));
+                        *want.entry(f.to_string()).or_default().entry(l).or_insert(0) += h;
+                    }
+                }
+                want.entry(f.to_string()).or_default();
+                text.push_str("end_of_record\n");
+                spellings.push(sp);
+            }
+            std::fs::write(root.join(format!("in{}.info", i)), text).unwrap();
+            args.push(format!("in{}.info", i));
+        }
+        let mut extra: Vec<String> = vec!["-t".into(), "lcov".into(), "--no-demangle".into(), "-s".into(), "proj".into()];
+        let opt = rng.below(4);
+        match opt {
+            0 => {}
+            1 => {
+                std::fs::write(root.join("map.json"), "{}").unwrap();
+                extra.extend(["--path-mapping".to_string(), "map.json".to_string()]);
+            }
+            2 => {
+                std::fs::write(root.join("map.json"), "{\"not/in/any/input.c\": \"main.c\"}").unwrap();
+                extra.extend(["--path-mapping".to_string(), "map.json".to_string()]);
+            }
+            _ => extra.extend(["-p".to_string(), src_abs.display().to_string()]),
+        }
+        let threads = *rng.pick(&[1usize, 2, 4]);
+        let out = run_grcov(&RunCfg { dir: &root, args: args.clone(), threads, perturb: None, fault: None, limit: std::time::Duration::from_secs(60), extra: extra.clone() });
+        rep.case(&format!("cli {:?} {:?} {}", spellings, extra, threads), spellings.len() > want.len());
+        rep.count(&format!("cli.option={}", ["none", "path-mapping {}", "path-mapping unrelated", "prefix-dir"][opt as usize]));
+        let case = json!({"op": "cli", "spellings": spellings, "extra": extra, "threads": threads});
+        if out.exit != Some(0) {
+            rep.fail("oracle", None, format!("grcov exited with {:?}: {}", out.exit, out.stderr.lines().last().unwrap_or("")), case);
+            continue;
+        }
+        // SF records as written (the decoder would already merge repeated names)
+        let sfs: Vec<&str> = out.stdout.lines().filter_map(|l| l.strip_prefix("SF:")).collect();
+        let mut dup = false;
+        for (i, a) in sfs.iter().enumerate() {
+            dup |= sfs[..i].contains(a);
+        }
+        let got: BTreeMap<String, BTreeMap<u32, u64>> = match decode_lcov_report(&out.stdout) {
+            Ok(m) => m.into_iter().map(|(k, v)| (k, v.lines)).collect(),
+            Err(e) => {
+                rep.fail("oracle", None, format!("report is not valid lcov: {}", e), case);
+                continue;
+            }
+        };
+        if dup || got != want {
+            rep.fail(
+                "oracle",
+                None,
+                format!("CLI: files existing under --source-dir and named by several spellings are not reported once each with summed counts (a file listed twice: {})", dup),
+                json!({"case": case, "SF": sfs, "report": format!("{:?}", got), "expected": format!("{:?}", want)}),
+            );
+        }
+        let _ = std::fs::remove_dir_all(&root);
+    }
+}
+
 pub fn run(rep: &mut Report) {
     rep.rule = "trees as in C11; 1-3 target files (mostly under the source dir, some outside or missing), each \
         named by 1-4 spellings (plain, ./, //, /./, backslash, absolute, name/../, source-dir tail, prefixed, or a \
@@ -579,8 +676,10 @@ pub fn run(rep: &mut Report) {
     let mut rng = Rng::new(fnv64(&(rep.seed ^ 0xC12).to_le_bytes()));
     witness(rep);
     stream(rep, &mut rng);
+    std::env::set_current_dir("/verif").unwrap();
+    cli_stream(rep, &mut rng);
     rep.notes.push("observation (counted as out.distinct_files_one_path, not judged by C12): with a source dir whose last component is T, a relative key T/../x is resolved by guess_abs_path to <parent of source dir>/x, outside the source dir, and is reported with the relative path x; if x is also reported for <source dir>/x, two different files share one path".into());
-    rep.notes.push("in-process only (add_results, rewrite_paths, output_covdir); the CLI is not driven here. Java/Kotlin keys, markers and symlinks are outside the generated domain; keys that denote a directory are not written with output_covdir (it panics on an empty path: not this property)".into());
+    rep.notes.push("the main stream is in-process (add_results, rewrite_paths, output_covdir); a second, small stream drives the CLI with files existing under --source-dir and --path-mapping / --prefix-dir options. Java/Kotlin keys, markers and symlinks are outside the generated domain; keys that denote a directory are not written with output_covdir (it panics on an empty path: not this property)".into());
 }
 
 pub fn replay(rep: &mut Report, case: &Value) {
